@@ -264,6 +264,7 @@ class AbstractExcelInPython(ABC):
                         last_valid_index = index + 1
                     else:
                         return last_valid_index
+                return last_valid_index
             case match_type if match_type < 0:
                 last_valid_index = '#N/A'
                 for index, value in enumerate(lookup_array):
@@ -273,6 +274,7 @@ class AbstractExcelInPython(ABC):
                         last_valid_index = index + 1
                     else:
                         return last_valid_index
+                return last_valid_index
 
     def _xmatch(self, lookup_value, lookup_array: List, match_mode: int = 0, search_mode: int = 1):
         # TODO wildcard match
